@@ -60,11 +60,17 @@ func Callee(c ssa.CallInstruction) string {
 		// the method is that interface's method
 		v := cc.Value
 		for d := 0; d < 4; d++ {
-			ci, ok := v.(*ssa.ChangeInterface)
-			if !ok {
-				break
+			// (a local interface with exactly the same methods converts by a plain
+			// change of type)
+			switch ci := v.(type) {
+			case *ssa.ChangeInterface:
+				v = ci.X
+			case *ssa.ChangeType:
+				v = ci.X
+			default:
+				d = 4
+				continue
 			}
-			v = ci.X
 			if _, isI := v.Type().Underlying().(*types.Interface); isI {
 				if sel := types.NewMethodSet(v.Type()).Lookup(cc.Method.Pkg(), cc.Method.Name()); sel != nil {
 					if f, ok := sel.Obj().(*types.Func); ok {
